@@ -92,3 +92,29 @@ Fixpoint simp_plan_steps (P : pending) (v s : schema) (acts : list action) : boo
   | [] => true
   | a :: r => (simp_step_ok P v a && simp_plan_steps (pend_step s P a) (step v (ghost_action a)) (step s a) r)%bool
   end.
+
+(* ---------- catalogs as sets: equal tables up to the order of keys, foreign keys and checks ---------- *)
+Definition table_equiv (a b : mtable) : Prop :=
+  tb_name a = tb_name b /\ tb_cols a = tb_cols b /\ tb_pk a = tb_pk b
+  /\ Permutation (tb_indexes a) (tb_indexes b) /\ Permutation (tb_fks a) (tb_fks b) /\ Permutation (tb_checks a) (tb_checks b).
+Definition cat_equiv (a b : catalog) : Prop := Forall2 table_equiv a b.
+
+(* no foreign key's columns are the leftmost columns of an EARLIER foreign key's columns: then which implicit indexes
+   exist does not depend on the order the foreign keys were created in *)
+Fixpoint fk_indep (l : list fkdef) : bool :=
+  match l with
+  | [] => true
+  | f :: r => (forallb (fun g => negb (is_prefix (fk_cols g) (fk_cols f))) r && fk_indep r)%bool
+  end.
+Definition table_order_free (td : table_def) : bool :=
+  (Nat.leb (List.length (filter is_pk (t_constraints td))) 1 && fk_indep (create_fks (t_name td) (t_constraints td)))%bool.
+Definition order_free (s : schema) : bool := forallb table_order_free s.
+
+(* the whole-plan hypothesis of C04_SimP_plan_equiv *)
+Definition simp_plan_full (s : schema) (acts : list action) : bool :=
+  (simp_plan_steps [] s s acts
+   && match pend_at s [] acts with [] => true | _ => false end
+   && match apply_all s acts, apply_all s (ghost_plan acts) with
+      | Ok s', Ok v' => (order_free s' && order_free v')%bool
+      | _, _ => false
+      end)%bool.
